@@ -294,3 +294,25 @@ CHECKS["C08"] = {
         {"variant": "tsan", "engine": "stress", "procs": 2, "rounds_quick": 1000, "rounds_thorough": 20000},
     ],
 }
+
+CHECKS["C16"] = {
+    "src": "C16.cpp",
+    "level": "exploration",
+    "rule": "rounds on DelayedDestructor<Elem> (concurrent: 2-4 threads x 2-5 actions; seq: both classes, 2-12 actions): add elements whose "
+            "external owner drops its reference 0-3 actions later (or only after the container is gone), destroyObjects(), destroyObjects(delay), "
+            "size(); 35% of the elements re-enter the container from their destructor (size / add a child / destroyObjects), optional callback "
+            "that may re-enter or throw; the serial engine fires lock time-outs at arbitrary points. Oracles in the element destructor / "
+            "callback: destroyed once, no other owner registered, no shim mutex held by the running thread, callback ran exactly once before a "
+            "reaped element; at quiescence added == destroyed + size(); after container destruction every element without a late owner is "
+            "destroyed, late-owned ones only by their last owner; no deadlock. Non-trivial: a destructor re-entered the container, or elements "
+            "were destroyed in a concurrent round; distinct = (program, schedule signature).",
+    "assumptions": ["elements are added once and never resurrected through weak_ptr", "the container is not used concurrently with its own destructor",
+                    "a return value of (size_t)-1 from destroyObjects carries no information"],
+    "runs": [
+        {"variant": "asan", "engine": "off", "mode": "seq", "procs": 2, "rounds_quick": 1500, "rounds_thorough": 20000},
+        {"variant": "plain", "engine": "serial", "procs": 6, "rounds_quick": 5000, "rounds_thorough": 100000},
+        {"variant": "asan", "engine": "stress", "procs": 3, "rounds_quick": 1200, "rounds_thorough": 20000},
+        {"variant": "asan", "engine": "serial", "procs": 2, "rounds_quick": 1500, "rounds_thorough": 30000},
+        {"variant": "tsan", "engine": "stress", "procs": 2, "rounds_quick": 600, "rounds_thorough": 10000},
+    ],
+}
